@@ -38,6 +38,7 @@ from __future__ import annotations
 import hashlib
 import json
 import logging
+import math
 import re
 import threading
 import time
@@ -306,6 +307,15 @@ class _TokenIntrospectionResource:
             self._refuse(resp, HTTPStatus.NOT_FOUND, "unresolved")
             return
 
+        ttl = identity.ttl_seconds
+        if isinstance(ttl, bool) or not isinstance(ttl, (int, float)) or not math.isfinite(ttl) or ttl <= 0:
+            # The caller caches for ttl_seconds: zero, negative, NaN or infinite
+            # values are a resolver bug, and NaN/Infinity are not even JSON.
+            _logger.error(
+                "introspection: resolver returned an invalid ttl",
+                extra={"principal": caller, "token_digest": digest},
+            )
+            raise falcon.HTTPInternalServerError(description="resolver returned an invalid ttl")
         _logger.info(
             "introspection: resolved",
             extra={
@@ -320,7 +330,7 @@ class _TokenIntrospectionResource:
             {
                 "principal": identity.principal,
                 "token_name": identity.token_name,
-                "ttl_seconds": identity.ttl_seconds,
+                "ttl_seconds": ttl,
             },
             separators=(",", ":"),
         ).encode()
